@@ -81,6 +81,13 @@ def run(chk):
                     why = "decode(encode(record)) differs from the record"
             if why is None and listing_of_record(rec) != independent_listing(fcp):
                 why = "the record does not list the schema's declarations with the declared values"
+            # the units as written in the source text (the generator's descriptor, not the parsed objects)
+            if why is None:
+                want_units = {(s["name"], fl["name"]): fl.get("params", {}).get("unit") for s in desc["structs"] for fl in s["fields"]}
+                got_units = {(s["name"], fl["name"]): fl["unit"] for s in rec["structs"] for fl in s["fields"]}
+                if any(got_units.get(k) != v for k, v in want_units.items()):
+                    k = next(k for k, v in want_units.items() if got_units.get(k) != v)
+                    why = f"the record lists unit {got_units.get(k)!r} for {k[0]}.{k[1]}, the source declares {want_units[k]!r}"
             if why is None and dec is not None:
                 # lossless: what comes back from the bytes still lists the declared values exactly (Python equality, not the
                 # reflection schema's own field types - a narrower field type there would otherwise hide its own rounding)
